@@ -116,11 +116,11 @@ func genC16Msg(r *Rng, g *EvGen, offered *[]*mocrelay.Event, shown []*mocrelay.E
 		for n := pick(r, []int{1, 1, 2}); n > 0; n-- {
 			fs = append(fs, g.aimedFilter(shown))
 		}
-		return &mocrelay.ClientReqMsg{SubscriptionID: pick(r, []string{"s", "t"}), ReqFilters: fs}
+		return &mocrelay.ClientReqMsg{SubscriptionID: pick(r, []string{"s", "t", "s", "t", ""}), ReqFilters: fs}
 	case 9:
-		return &mocrelay.ClientCountMsg{SubscriptionID: "c", ReqFilters: g.Filters()}
+		return &mocrelay.ClientCountMsg{SubscriptionID: pick(r, []string{"c", "c", "s", ""}), ReqFilters: g.Filters()}
 	case 10:
-		return &mocrelay.ClientCloseMsg{SubscriptionID: "s"}
+		return &mocrelay.ClientCloseMsg{SubscriptionID: pick(r, []string{"s", "s", "t", "", "c"})}
 	default:
 		return &mocrelay.ClientAuthMsg{Event: g.Event()}
 	}
